@@ -127,8 +127,11 @@ def _frames(g, cfg, prefix, framer_names, P, aux_names, slave_names, is_aux=Fals
                 if g.random() < cfg["p_fiat"]:
                     acts.append({"k": "fiat", "ctx": g.choice(["enter", "recur", "exit"]), "control": g.choice(["ready", "start", "run", "run", "stop", "abort"]), "who": sl})
             if all_tasks and g.random() < cfg["p_bid"]:
-                acts.append({"k": "bid", "ctx": g.choice(["enter", "recur", "exit"]), "control": g.choice(["start", "run", "stop", "stop", "abort", "ready"]),
-                             "who": [g.choice(list(all_tasks) + ["me"])]})
+                b = {"k": "bid", "ctx": g.choice(["enter", "recur", "exit"]), "control": g.choice(["start", "run", "stop", "stop", "abort", "ready"]),
+                     "who": [g.choice(list(all_tasks) + ["me"])]}
+                if b["control"] in ("start", "run", "ready") and g.random() < 0.4:
+                    b["period"] = dec(g.choice([0, 1, 2, 3]) * Fraction(P))
+                acts.append(b)
         # transitions last (they are precur context in declaration order)
         ngo = 0
         while g.random() < cfg["p_go"] and ngo < 3:
